@@ -8,6 +8,25 @@ from vlib import core, runner
 from .base import Check
 
 
+# Behaviour-preserving rewrites of the anchored code on which the check must stay silent.  Each was built as a mutated object
+# file outside /repo, linked into a scratch harness and run through the whole correspondence flow (corpus, generated cases,
+# network steps, simulation): no MISMATCH, no SPECFAIL.  Patches (documentation only): corpus/C11/negative_controls/*.diff.
+NEGATIVE_CONTROLS = [
+    "nc1_reorder_rename_extract: RelayMessageOne/SyncRelayMessage with renamed locals, reordered independent statements "
+    "(master and local endpoint looked up first, originZone set before ts), isMaster hoisted, log-position update extracted into a helper",
+    "nc2_log_text: different log / exception texts in SyncRelayMessage, SyncSendMessage, the master log line, "
+    "JsonRpcConnection::SendMessage and MessageHandler",
+    "nc3_iteration_and_representation: endpoints of a target zone visited in REVERSE order, target zones copied into a vector, "
+    "GetMaster via std::min_element, an extra bookkeeping counter  [alarmed at first: the reported iteration order was used as the "
+    "only allowed order; the driver now accepts any arrangement of each zone's endpoint set - DESIGN.md 0.3 'allowed sets']",
+    "nc4_guard_spellings: early return as positive nested test, `relayed && foreign` as nested ifs, De Morgan on the FromZone guard, "
+    "master guard as if/else, log_done as an expression, `log && need_log` as early return, FromZone as a conditional expression",
+    "nc5_robbed_members_and_statics: outgoing queue filled through a moved temporary with added braces/comments, replay-log counter "
+    "pre-incremented before the write, relay job as a named lambda, static helper CleanupCertificateRequest renamed",
+    "nc6_zone_walk: Zone::IsChildOf as a recursion, CanAccessObject as one expression, GetEndpoints collecting into a vector first",
+]
+
+
 class C11(Check):
     prop = "C11"
     required_theorems = [
@@ -50,15 +69,17 @@ class C11(Check):
     level_note = ("Trusted: Lean kernel (+ propext, Classical.choice, Quot.sound), the sampled/enumerated correspondence, harness/driver. "
                   "Not modelled: connectivity changing while an event is in flight (C12), the `syncing` window (Q-C12b), TCP/TLS, the "
                   "`ts`-based discard of old messages in MessageHandler (C12). The cluster-wide theorems are about the network MODEL (composition "
-                  "of the per-node function that the correspondence ties to the code); hypotheses: global zones have no parent, forest depth "
+                  "of the per-node function that the correspondence ties to the code); robustness: 6 behaviour-preserving rewrites of the anchored "
+                  "code (NEGATIVE_CONTROLS in checks/c11.py, patches in corpus/C11/negative_controls) pass silently; hypotheses: global zones have no parent, forest depth "
                   "within the IsChildOf walk (<= 33), every zone with a parent is a registered Zone object.")
     trusted_base = [
         "modelled, not verified: only ApiListener::GetMaster, RelayMessageOne, SyncRelayMessage, the FromZone computation of "
         "JsonRpcConnection::MessageHandler and the handlers' CanAccessObject guard; std::sort of the names is modelled by the minimum "
         "of the index order (endpoint k is named e<kk>, so the order of the indices is the order of the names)",
-        "the iteration order of std::set<Endpoint::Ptr> is an oracle input: the harness reports the order Zone::GetEndpoints() yields in "
-        "the node process and the model iterates in that order; the driver checks that it is an arrangement of the configured members; "
-        "the theorems hold for every order",
+        "the iteration order of the endpoint sets is free (std::set<Endpoint::Ptr> ordered by address; DESIGN.md 0.3 'allowed sets'): the "
+        "harness reports the order Zone::GetEndpoints() yields in the node process, the model is first run with that order and, where "
+        "the observation differs, with every arrangement of every zone's endpoint set - a case disagrees only if NO arrangement "
+        "explains it (counted as order_free otherwise); the theorems hold for every order",
         "the network model composes the per-node function; ONE network step (origin construction by the real MessageHandler, "
         "acceptance by the real Zone::CanAccessObject, re-relay with that origin) is tied to the code by the D-line correspondence, "
         "with a harness-registered ApiFunction standing for the cluster event handlers' glue (their guards: C13); a multi-process run "
